@@ -154,6 +154,19 @@ fn algebra_sweep() {
             match fr.best_fit() { Some(bf) => if let Some(d) = close(&bf, &o.fit) { f.report("C02 C06", "best_fit() differs from Phi(alpha) * C", format!("(max abs diff {:e}) for a converged fit with N={} S={} and zero weights at rows 3,7", d, n, s)); }, None => f.report("C02 C04", "best_fit() == None after a successful fit", String::new()) }
         }
     }
+    // C10: no uninitialised memory. With y = 0 the coefficients are exactly zero, so every Jacobian column is exactly zero; the
+    // heap is poisoned with blocks of the Jacobian's size before each query so that a column that is never written shows
+    {
+        let (n, m, p) = (8usize, 2usize, 2usize);
+        let pr = LevMarProblemBuilder::new(model(n, m, p)).observations(DVector::zeros(n)).build().unwrap();
+        for round in 0..4 {
+            { let poison: Vec<Vec<f64>> = (0..6).map(|k| vec![f64::from_bits(0x7ff8_0000_dead_0000 + k as u64); n * p]).collect(); std::hint::black_box(&poison); }
+            match pr.jacobian() {
+                Some(j) => if j.iter().any(|v| *v != 0.0) { f.report("C10 C03", "jacobian() contains values that were never computed (zero observations: every column is exactly zero)", format!("in query #{}: {:?}", round + 1, j.as_slice().iter().take(4).collect::<Vec<_>>())); },
+                None => f.report("C03 C09", "jacobian() == None for zero observations", String::new()),
+            }
+        }
+    }
     // C09: a derivative that fails at an index other than the last must make jacobian() None
     for fail_at in 0..2usize {
         let (n, m, p) = (8usize, 2usize, 2usize);
@@ -173,7 +186,7 @@ fn stats_sweep() {
         let w: Option<DVector<f64>> = match wk { 0 => None, 1 | 3 => Some(DVector::from_fn(n, |i, _| 0.5 + 0.1 * (i % 5) as f64)), _ => Some(DVector::from_fn(n, |i, _| if i == 4 || i == 11 { 0.0 } else { 0.5 + 0.1 * (i % 5) as f64 })) };
         let mut b = LevMarProblemBuilder::new(model(n, m, p)).observations(y.clone());
         if let Some(w) = &w { b = b.weights(w.clone()); }
-        let (fit, st) = match LevMarSolver::default().fit_with_statistics(b.build().unwrap()) { Ok(x) => x, Err(e) => { if e.was_successful() { f.report("C12 C06", "fit_with_statistics returned Err although the fit succeeded and N > M + P", format!("(weights case {})", wk)); } continue; } };
+        let (fit, st) = match LevMarSolver::default().fit_with_statistics(b.build().unwrap()) { Ok(x) => x, Err(_) => continue /* an Err from the statistics (e.g. MatrixInversion) is allowed by C12: nothing to compare */ };
         let alpha = fit.nonlinear_parameters();
         let c = fit.linear_coefficients().unwrap().into_owned();
         let mut mo = model(n, m, p);
